@@ -324,7 +324,7 @@ def plant(g, rnd, kind):
     raise ValueError(kind)
 
 
-KINDS = ['ok', 'undefined_rhs', 'unprod_left', 'unprod_right', 'unprod_mutual', 'unprod_deep', 'unprod_unreachable', 'unprod_start', 'epsilon_productive', 'chain_productive', 'type_without_rule', 'start_without_rule']
+KINDS = ['ok', 'ghost_first_used', 'undefined_rhs', 'unprod_left', 'unprod_right', 'unprod_mutual', 'unprod_deep', 'unprod_unreachable', 'unprod_start', 'epsilon_productive', 'chain_productive', 'type_without_rule', 'start_without_rule']
 
 
 def run_C12(ctx):
@@ -343,6 +343,16 @@ def run_C12(ctx):
                     sp = front.decorate(g, rnd, actions=False)
                     sp['decls'].append(('type', 'v0', ['ghost']))
                     want, desc = 'norule', '%type names ghost, which has no rule'
+                elif kind == 'ghost_first_used':
+                    # a %type'd name without rule that sorts first among the nonterminals, used next to productive alternatives
+                    sp = front.decorate(g, rnd, actions=False)
+                    ghost = rnd.choice(['AAghost', 'A0', 'Ba'])
+                    sp['decls'].append(('type', 'v0', [ghost]))
+                    lhs0, alts0 = sp['groups'][rnd.randrange(len(sp['groups']))]
+                    alts0.append(dict(rhs=list(alts0[0]['rhs']) + [('id', ghost)], prec=None, action=None))
+                    if rnd.random() < 0.7 and not any(d[0] == 'token' and any(it[1] == -1 for it in d[2]) for d in sp['decls']):
+                        sp['decls'].insert(0, ('token', None, [(('id', 'ENDMARK'), -1, None)]))
+                    want, desc = 'norule', '%%type names %s, used in a rule but without a rule of its own' % ghost
                 elif kind == 'start_without_rule':
                     sp = front.decorate(g, rnd, actions=False)
                     sp['decls'] = [d for d in sp['decls'] if d[0] != 'start'] + [('start', 'nowhere')]
